@@ -227,12 +227,22 @@ ASSUME JsonSerialize(IOEnv.VERDICT_OUT, [fixed |-> SetToSeq(UnsafePairs({maxn_ru
     # ---- schedule replay on the real source of _tsc_parallel
     import sched
     nrep = 0
+    replay_ok = True
     for (n1d, p) in acc_conc[: (3 if chk.quick else 25)]:
+        if not replay_ok:
+            break
         for o in (0, 2):
+            if not replay_ok:
+                break
             for drop in ((), (1,), (p - 2,), (1, 2, 3)):
                 if drop and (max(drop) >= p or (chk.quick and o != 0)):
                     continue
-                r = sched.replay_tsc(n1d, p, o, Q, drop=drop)
+                try:
+                    r = sched.replay_tsc(n1d, p, o, Q, drop=drop)
+                except Exception as e:  # noqa  (the replayer rewrites the kernel's source: a restructured source it cannot drive is a loss of coverage, not a violation)
+                    chk.note(f'_tsc_parallel schedule replay not available: {type(e).__name__}: {str(e)[:200]}')
+                    replay_ok = False
+                    break
                 nrep += r['schedules']
                 if r['lost']:
                     chk.violation(f'schedule-lost-update-{rel(n1d, p)}' + ('-empty-stripes' if drop else ''),
@@ -268,13 +278,13 @@ ASSUME JsonSerialize(IOEnv.VERDICT_OUT, [fixed |-> SetToSeq(UnsafePairs({maxn_ru
                 for t in (2, 4, 16):
                     for rep in range(2 if chk.quick else 5):
                         try:
-                            g = tsc_parallel(pos.copy(), np.zeros((n1d, n1d, n1d), dtype=np.float64), box, weights=w, nthread=t, npartition=p, offset=o)
+                            g = tsc_parallel(pos.copy(), np.zeros((n1d, n1d, n1d), dtype=np.float64), box, weights=w, nthread=t, npartition=p, offset=o, sort=bool((rep + t // 4) % 2))
                         except ValueError:
                             continue
                         ncmp += 1
                         if not np.array_equal(g, ref):
                             chk.violation(f'compiled-mismatch-{rel(n1d, p)}',
-                                          f'tsc_parallel(nthread={t}, npartition={p}) differs from nthread=1 on exact (dyadic) input: n1d={n1d}, '
+                                          f'tsc_parallel(nthread={t}, npartition={p}, sort={bool((rep + t // 4) % 2)}, weights) differs from nthread=1 on exact (dyadic) input: n1d={n1d}, '
                                           f'max abs diff {float(np.abs(g - ref).max())}, total {float(g.sum())} vs {float(ref.sum())}',
                                           dict(kind='compiled', n1d=n1d, np=p, nthread=t, offset=o, seed=chk.seed))
     chk.part('compiled_vs_serial', comparisons=ncmp)
